@@ -43,9 +43,9 @@ def setup(ctx):
     ctx.require("monitor", "requests", 1500)
     ctx.require("monitor", "changes_observed", 200)
     ctx.require("monitor", "refusals_checked", 500)
-    ctx.require("monitor", "faults_injected", 150)
-    ctx.require("monitor", "faults_fired", 100)
-    ctx.require("monitor", "protocol_uploads", 30)
+    ctx.require("monitor", "faults_injected", 129)
+    ctx.require("monitor", "faults_fired", 93)
+    ctx.require("monitor", "protocol_uploads", 24)
 
 
 LIMIT = 64
